@@ -48,6 +48,24 @@ def _copy_node(e, keep=("_orig", "_src")):
     return new
 
 
+def _tagged_copy(e, ctx):
+    """copy in which every node remembers the function and node it came from (so that calls in it can still be resolved)"""
+    if isinstance(e, list):
+        return [_tagged_copy(x, ctx) for x in e]
+    if not isinstance(e, ast.AST):
+        return e
+    new = type(e)()
+    for f in e._fields:
+        if hasattr(e, f):
+            setattr(new, f, _tagged_copy(getattr(e, f), ctx))
+    for a in ("lineno", "col_offset", "end_lineno", "end_col_offset"):
+        if hasattr(e, a):
+            setattr(new, a, getattr(e, a))
+    new._src = getattr(e, "_src", (ctx, e))  # type: ignore[attr-defined]
+    new._orig = getattr(e, "_orig", new._src)  # type: ignore[attr-defined]
+    return new
+
+
 def strip_wrappers(e: ast.expr, allowed=WRAPPERS) -> ast.expr:
     """`list(x)`, `sorted(x, ...)`, `tuple(x)` ... -> x (one positional argument)."""
     while isinstance(e, ast.Call) and isinstance(e.func, ast.Name) and e.func.id in allowed and len(e.args) == 1:
@@ -103,6 +121,9 @@ class Model:
                     kind, value = "assign", p.value
                 elif isinstance(top, (ast.Tuple, ast.List)) and isinstance(p.value, (ast.Tuple, ast.List)) and len(top.elts) == len(p.value.elts) and n in top.elts:
                     kind, value = "assign", p.value.elts[top.elts.index(n)]
+                elif isinstance(top, (ast.Tuple, ast.List)) and n in top.elts and not any(isinstance(x, ast.Starred) for x in top.elts) and isinstance(p.value, ast.Call) and isinstance(p.value.func, ast.Attribute) and p.value.func.attr in ("partition", "rpartition"):
+                    # a, sep, b = s.partition(x): component i of the result
+                    kind, value = "assign", ast.copy_location(ast.Subscript(value=p.value, slice=ast.Constant(value=top.elts.index(n)), ctx=ast.Load()), p.value)
             elif isinstance(p, ast.AnnAssign) and p.target is n and p.value is not None:
                 kind, value = "assign", p.value
             elif isinstance(p, ast.AugAssign):
@@ -428,7 +449,7 @@ class Model:
             def visit_Lambda(self, node):  # noqa: N802
                 return node
 
-        return S().visit(_copy_node(stores[0], keep=()))
+        return S().visit(_tagged_copy(stores[0], init))
 
     def _resolve_other(self, x, bound, depth):
         if isinstance(x, ast.keyword):
@@ -541,8 +562,23 @@ class Model:
     def loops_around(self, node: ast.AST, whiles: bool = False) -> list[ast.For]:
         """Enclosing for-loops (optionally also while-loops), outermost first."""
         kinds = (ast.For, ast.AsyncFor, ast.While) if whiles else (ast.For, ast.AsyncFor)
-        out = [a for a in ancestors(node) if isinstance(a, kinds)]
+        out = []
+        child = node
+        for a in ancestors(node):
+            # a statement in the `else:` of a loop runs once, after the loop: it is not *in* the loop
+            if isinstance(a, kinds) and not any(child is x for x in a.orelse):
+                out.append(a)
+            child = a
         return list(reversed(out))
+
+    def in_else_of(self, node: ast.AST):
+        """the loop in whose `else:` block `node` sits (directly or nested in ifs), if any"""
+        child = node
+        for a in ancestors(node):
+            if isinstance(a, (ast.For, ast.AsyncFor, ast.While)):
+                return a if any(child is x for x in a.orelse) else None
+            child = a
+        return None
 
     def stmt_of(self, node: ast.AST) -> ast.AST:
         n = node
